@@ -172,6 +172,70 @@ class JGen(sg.Gen):
         if rng.random() < 0.6:
             self.stale_round()
 
+    def populate_packed(self):
+        """a small world in which some storages are full (every index 0..n-1 has the component) but were filled
+        out of index order, or had a value removed and put back: the order of the values inside a dense storage
+        then differs from the index order; a mutating join follows at once and every entity is looked up"""
+        rng = self.rng
+        n = rng.randint(3, 9)
+        self.hist.append((wg.CI, [n]))
+        self.created(n)
+        self.n0 = n
+        self.hot = list(range(n))
+        self.idx_hint = sorted(set(range(n + 2)))
+        full = []
+        for sid in self.regs:
+            order = list(range(n))
+            if rng.random() < 0.75:
+                rng.shuffle(order)
+            if rng.random() < 0.75:
+                full.append(sid)
+            else:
+                order = [h for h in order if rng.random() < 0.7]
+            for h in order:
+                u, v = self.tok(sid)
+                self.hist.append((sg.INS, [sid, h, u, v]))
+            if rng.random() < 0.4 and order:
+                h = rng.choice(order)
+                self.hist.append((sg.REM, [sid, h]))
+                u, v = self.tok(sid)
+                self.hist.append((sg.INS, [sid, h, u, v]))
+        if rng.random() < 0.5:
+            self.hist.append((wg.M, []))
+        for sid in full:
+            kinds = [k for k in (K_JOIN, K_PAR, K_LEND) if write_ok(k, sid)]
+            kind = rng.choice(kinds)
+            if rng.random() < 0.5:
+                members = [[M_WRITE, sid, rng.randint(0, 1), 1, self.delta(sid)]]
+            else:
+                # through the mutable restricted view, every item (or every second one) written
+                sm = rng.choice([1, 1, 2])
+                members = [[M_RESTR, sid, 1, sm, rng.randrange(sm), self.delta(sid), 0]]
+            if rng.random() < 0.4:
+                members.append([M_ENTS])
+            rng.shuffle(members)
+            arg = rng.choice(POOLS) if kind == K_PAR else rng.choice([-1, -1, -2]) if kind == K_LEND else -1
+            payload = [kind, arg, len(members)]
+            for m in members:
+                payload += m
+            self.hist.append((JOIN, payload))
+            for h in range(n):
+                self.hist.append((sg.GET, [sid, h]))
+        # the same for a change set: amounts added in shuffled order for every index, then updated through a join
+        if rng.random() < 0.6:
+            c = rng.randrange(4)
+            order = list(range(n))
+            rng.shuffle(order)
+            pairs = []
+            for h in order:
+                pairs += [h, rng.randint(-20, 20)]
+            self.hist.append((CSCOLLECT, [c, n] + pairs))
+            self.cs_depth[c] = n
+            kind = rng.choice([K_JOIN, K_LEND])
+            self.hist.append((JOIN, [kind, -1, 1, M_CS, c, 1, rng.randint(-9, 9)]))
+            self.cs_depth[c] += n
+            self.hist.append((CSDUMP, [c]))
+
     def stale_round(self):
         """kill a few component owners, merge, create again: the old handles are stale and their
         indices are (often) occupied by new entities, with or without the component"""
@@ -199,9 +263,21 @@ class JGen(sg.Gen):
                 self.hist.append((wg.D, [h]))       # frees an index that the atomic creation may take
                 self.kill(h)
         for _ in range(rng.randint(1, 3)):
-            self.hist.append((wg.EB, [1] + self.comps(3)))
-            self.hot.append(self.nh)
+            cs = self.comps(3)
+            self.hist.append((wg.EB, [1] + cs))
+            h = self.nh
+            self.hot.append(h)
             self.created(1)
+            if rng.random() < 0.6:
+                # looked up at once through the lending join (by entity and by index), and visited by an iteration
+                members = [[M_READ, sid] for sid in cs[0::3]]
+                if not members or rng.random() < 0.4:
+                    members.append([M_ENTS])
+                rng.shuffle(members)
+                flat = [x for m in members for x in m]
+                self.hist.append((JOIN, [K_GET, h, len(members)] + flat))
+                if rng.random() < 0.5:
+                    self.hist.append((JOIN, [rng.choice([K_JOIN, K_LEND]), -1, len(members)] + flat))
 
     # ------------------------------------------------------------------ members
     def some_handle(self):
@@ -599,13 +675,19 @@ def pick_sids(rng, focus):
 def join_history(rng, length, focus="join"):
     assert focus in FOCI
     g = JGen(rng, focus)
-    for sid in pick_sids(rng, focus):
+    sids = pick_sids(rng, focus)
+    if rng.random() < 0.5 and not any(x in sids for x in (1, 7)):
+        sids[rng.randrange(len(sids))] = rng.choice([1, 7])     # a dense storage (plain / flagged)
+    for sid in sids:
         g.register(sid)
         if sid >= 6 and (focus == "restrict" or rng.random() < 0.5):
             for _ in range(rng.randint(1, 2)):
                 g.hist.append((sg.RREG, [sid]))
                 g.readers[sid] = g.readers.get(sid, 0) + 1
-    g.populate()
+    if rng.random() < 0.12:
+        g.populate_packed()
+    else:
+        g.populate()
     if focus == "changeset":
         for _ in range(rng.randint(2, 5)):
             g.cs_op()
